@@ -189,3 +189,125 @@ Proof.
     lia |]).
   destruct Hp.
 Qed.
+
+(* ---- the refresh endpoint with its form ---- *)
+Lemma refresh_ignores_form c p f f' k : refresh c p f k = refresh c p f' k.
+Proof. reflexivity. Qed.
+
+Theorem refresh_sound cn blocks p f k id bl :
+  forallb wf_block blocks = true ->
+  refresh (minted cn blocks) p f k = Some (id, bl) ->
+  id = cn /\ bl = blocks /\ k = true /\ exists b, In b blocks /\ contains b p = true.
+Proof.
+  intros W. unfold refresh, minted. cbn [rc_ext rc_cn].
+  destruct (verify_ip (ext_of blocks) p) eqn:V; [|discriminate].
+  destruct k; [|discriminate].
+  rewrite (extract_minted _ W). intros H. injection H as E1 E2. subst id bl.
+  repeat split. apply (minted_iff blocks p W). exact V.
+Qed.
+
+Theorem refresh_complete cn blocks p f :
+  forallb wf_block blocks = true ->
+  (exists b, In b blocks /\ contains b p = true) ->
+  refresh (minted cn blocks) p f true = Some (cn, blocks).
+Proof.
+  intros W E. unfold refresh, minted. cbn [rc_ext rc_cn].
+  rewrite (proj2 (minted_iff blocks p W) E). rewrite (extract_minted _ W). reflexivity.
+Qed.
+
+(* however often a certificate is refreshed, from wherever, with whatever forms: the certificate in
+   hand is the one that was minted *)
+Theorem refresh_chain_same steps : forall cn blocks c',
+  forallb wf_block blocks = true ->
+  refresh_chain (minted cn blocks) steps = Some c' -> c' = minted cn blocks.
+Proof.
+  induction steps as [|[p f] r IH]; intros cn blocks c' W H; simpl in H.
+  - inversion H. reflexivity.
+  - destruct (refresh (minted cn blocks) p f true) as [[id bl]|] eqn:R; [|discriminate].
+    destruct (refresh_sound _ _ _ _ _ _ _ W R) as [-> [-> _]]. apply IH; assumption.
+Qed.
+
+(* so a refreshed certificate is accepted only from inside the blocks of the FIRST one *)
+Theorem refresh_chain_reach steps cn blocks c' q :
+  forallb wf_block blocks = true ->
+  refresh_chain (minted cn blocks) steps = Some c' ->
+  verify_ip (rc_ext c') q = true -> exists b, In b blocks /\ contains b q = true.
+Proof.
+  intros W H V. rewrite (refresh_chain_same _ _ _ _ W H) in V. cbn [minted rc_ext] in V.
+  apply (minted_iff blocks q W). exact V.
+Qed.
+
+(* the narrowing variant that compares base addresses only widens: /24 -> /8 *)
+Theorem refresh_narrowing_by_base_refuted :
+  exists cn blocks p req id bl q,
+    forallb wf_block blocks = true /\
+    refresh_narrowing_by_base (minted cn blocks) p req = Some (id, bl) /\
+    verify_ip (ext_of bl) q = true /\ verify_ip (ext_of blocks) q = false.
+Proof.
+  exists [115], [mk 10 0 0 0 24], (V4 10 0 0 7), [mk 10 0 0 0 8], [115], [mk 10 0 0 0 8], (V4 10 99 0 1).
+  vm_compute. repeat split; reflexivity.
+Qed.
+
+(* ---- request-side netblock parsing: the canonical block ---- *)
+Lemma land_idem x m : N.land (N.land x m) m = N.land x m.
+Proof. rewrite <- N.land_assoc, N.land_diag. reflexivity. Qed.
+
+Lemma land_byte x m : x < 256 -> N.land x m < 256.
+Proof.
+  intros H. destruct (N.eq_dec (N.land x m) 0) as [E|E]; [rewrite E; lia|].
+  change 256 with (2 ^ 8). apply N.log2_lt_pow2; [lia|].
+  eapply N.le_lt_trans; [apply N.log2_land|].
+  apply N.min_lt_iff. left.
+  destruct (N.eq_dec x 0) as [->|Hx]; [rewrite N.land_0_l in E; contradiction|].
+  apply N.log2_lt_pow2; [lia|exact H].
+Qed.
+
+Lemma canon_wf b : cidr_ok b = true -> wf_block (canon b) = true.
+Proof.
+  unfold cidr_ok, wf_block, masked, canon, mk, is_byte. cbn [plen o0 o1 o2 o3].
+  rewrite !andb_true_iff, !N.ltb_lt. intros [[[[Hp B0] B1] B2] B3].
+  rewrite !land_idem, !N.eqb_refl. repeat split; try assumption; apply land_byte; assumption.
+Qed.
+
+Lemma canon_contains b p : contains (canon b) p = contains b p.
+Proof. destruct p; cbn [contains canon mk plen o0 o1 o2 o3]; rewrite ?land_idem; reflexivity. Qed.
+
+Lemma canon_idem b : canon (canon b) = canon b.
+Proof. unfold canon, mk. cbn [plen o0 o1 o2 o3]. rewrite !land_idem. reflexivity. Qed.
+
+Lemma canon_all_wf req : forallb cidr_ok req = true -> forallb wf_block (map canon req) = true.
+Proof.
+  induction req as [|b r IH]; cbn [forallb map]; [reflexivity|].
+  rewrite !andb_true_iff. intros [A B]. split; [apply canon_wf; exact A|apply IH; exact B].
+Qed.
+
+(* minting from the request text: the certificate authenticates exactly the addresses of the CIDRs
+   as written (any address of the block may stand in the text), reads back as the canonical blocks *)
+Theorem mint_parse_exact cn req p :
+  forallb cidr_ok req = true ->
+  (verify_ip (rc_ext (mint_request cn req)) p = true <-> exists b, In b req /\ contains b p = true).
+Proof.
+  intros W. unfold mint_request, minted. cbn [rc_ext].
+  rewrite (minted_iff _ p (canon_all_wf _ W)). split.
+  - intros [b [I C]]. apply in_map_iff in I. destruct I as [b0 [<- I]]. exists b0. split; [exact I|].
+    rewrite canon_contains in C. exact C.
+  - intros [b [I C]]. exists (canon b). split; [apply in_map; exact I|]. rewrite canon_contains. exact C.
+Qed.
+
+Theorem mint_parse_readback cn req :
+  forallb cidr_ok req = true -> extract (rc_ext (mint_request cn req)) = Some (map canon req).
+Proof. intros W. apply extract_minted. apply canon_all_wf. exact W. Qed.
+
+(* in numbers: a.b.c.d/p accepts the peer iff the peer's leading p bits are those of a.b.c.d *)
+Theorem mint_parse_numeric cn req a0 a1 a2 a3 :
+  forallb cidr_ok req = true -> a0 < 256 -> a1 < 256 -> a2 < 256 -> a3 < 256 ->
+  (verify_ip (rc_ext (mint_request cn req)) (V4 a0 a1 a2 a3) = true <->
+   exists b, In b req /\ bnum b / 2 ^ (32 - plen b) = num a0 a1 a2 a3 / 2 ^ (32 - plen b)).
+Proof.
+  intros W A0 A1 A2 A3. rewrite (mint_parse_exact cn req _ W).
+  rewrite forallb_forall in W.
+  split; intros [b [I C]]; exists b; (split; [exact I|]);
+    specialize (W b I); unfold cidr_ok, is_byte in W; rewrite !andb_true_iff, !N.ltb_lt, N.leb_le in W;
+    destruct W as [[[[Hp B0] B1] B2] B3];
+    apply (contains_numeric b a0 a1 a2 a3 Hp B0 B1 B2 B3 A0 A1 A2 A3); exact C.
+Qed.
